@@ -62,6 +62,7 @@ void ParseArgs(int argc, char *argv[], Options &out) {
   if (out.outputs.empty()) {
     UTIL_THROW_IF2(!vm.count("prefix"), "Specify outputs using --outputs or e.g. --prefix pre --number 2");
     UTIL_THROW_IF2(!vm.count("number"), "--prefix specified but we need to know how many shards with -n");
+    UTIL_THROW_IF2(!number, "--number must be at least 1");
     // How many digits will be in the 0-indexed representation?
     unsigned int digits = 0;
     for (unsigned int compare = number - 1; compare; ++digits, compare /= 10) {}
